@@ -40,7 +40,9 @@ def main():
         assert rc == 0, out
         demo = os.path.join(d, "demo.py")
         if not a.skip_confirm:
-            rc0, o0 = sh([PY, demo], cwd=wt, timeout=600)
+            denv = dict(os.environ)
+            denv["PYTHONPATH"] = wt
+            rc0, o0 = sh([PY, demo], cwd=wt, env=denv, timeout=600)
         rc, out = sh(["git", "-C", wt, "apply", "--whitespace=nowarn", os.path.join(d, "patch.diff")])
         if rc != 0:
             rc, out = sh(["git", "-C", wt, "apply", "-3", "--whitespace=nowarn", os.path.join(d, "patch.diff")])
@@ -49,7 +51,7 @@ def main():
             result["error"] = "patch does not apply: " + out[-500:]
             return result
         if not a.skip_confirm:
-            rc1, o1 = sh([PY, demo], cwd=wt, timeout=600)
+            rc1, o1 = sh([PY, demo], cwd=wt, env=denv, timeout=600)
             rct, ot = sh([PY, "-m", "pytest", "-q", "-p", "no:cacheprovider", "-x"], cwd=wt, timeout=1200)
             result.update({"demo_unpatched_exit": rc0, "demo_patched_exit": rc1, "suite_patched_exit": rct,
                            "suite_tail": ot.strip().splitlines()[-1:] })
